@@ -60,6 +60,8 @@ from lv.gen.grammar import Cfg
 from lv.gen.grammar import data_strategy
 from lv.gen.grammar import program_strategy
 from lv.gen.printer import to_source
+from dateutil import parser as _dateutil_parser
+
 from lv.harness.clock import clear_date_memo
 from lv.harness.clock import fake_clock
 from lv.harness.envs import run_coro
@@ -98,7 +100,21 @@ TIME_KINDS: dict[str, tuple[str, str | None]] = {
     "td0": ("date-today", F_DAY),
     "td1": ("date-today", F_JDAY),
     "ts": ("date-timestamp", None),
+    # partial dates: dateutil fills the missing fields from the current day
+    "pd0": ("date-partial", ("10:30", F_FULL)),
+    "pd1": ("date-partial", ("March 5", F_DAY)),
+    "pd2": ("date-partial", ("Friday 7pm", F_FULL)),
 }
+
+
+def expect_time(spec: Any, now: Any) -> str:
+    """The text a time-dependent marked value must show when the clock reads `now`."""
+    if isinstance(spec, str):
+        return str(now.strftime(spec))
+    text, fmt = spec
+    midnight = now.replace(hour=0, minute=0, second=0, microsecond=0)
+    return str(_dateutil_parser.parse(text, default=midnight).strftime(fmt))
+
 
 STATE_KINDS = {
     "inc": "increment", "dec": "decrement", "cnt": "increment", "cyc": "cycle", "cycn": "cycle-named",
@@ -114,6 +130,9 @@ TIME_SNIPPETS = [
     f"[[tv1:{{{{ today | date: '{F_JDAY}' }}}}]]",
     "[[ts:{{ 1152098955 | date: '%Y-%m-%d %H:%M' }}]]",
     "[[ts:{{ '1152098955' | date: '%H:%M' }}]]",
+    f"[[pd0:{{{{ '10:30' | date: '{F_FULL}' }}}}]]",
+    f"[[pd1:{{{{ 'March 5' | date: '{F_DAY}' }}}}]]",
+    f"[[pd2:{{{{ 'Friday 7pm' | date: '{F_FULL}' }}}}]]",
 ]
 DATE_NOW_SNIPPETS = [
     f"[[nd0:{{{{ 'now' | date: '{F_FULL}' }}}}]]",
@@ -142,7 +161,7 @@ STATE_SNIPPETS = [
 
 RE_MARK = re.compile(r"\[\[([a-z0-9]+):(.*?)\]\]", re.S)
 RE_DATE_NOW = re.compile(r"""['"](?:now|today)['"]\s*\|\s*date\b""")
-RE_TIME_DEP = re.compile(r"\bnow\b|\btoday\b")
+RE_TIME_DEP = re.compile(r"\bnow\b|\btoday\b|\[\[pd\d:")
 
 # fallback attribution when no marker separates the outputs: first construct present
 CONSTRUCTS: list[tuple[str, re.Pattern[str]]] = [
@@ -687,7 +706,7 @@ class C09(Prop):
         "data objects are rebuilt from the JSON description for every render on both sides (caller-data "
         "mutation is C10's subject); loader contents never change during a history (C14's subject)",
         "the fake clock replaces the `datetime` module attribute of liquid2.context and "
-        "liquid2.builtin.filters.misc; dateutil's own default for partial dates is not controlled",
+        "liquid2.builtin.filters.misc, and of dateutil.parser._parser (the day that completes a partial date)",
         "each Environment owns its loader; one loader object is never shared between environments",
         "tags are resolved at parse time, so only NEW tag names are registered on env A during a history; "
         "filters are resolved at render time, so both new names and an override of `upcase` are registered",
@@ -805,7 +824,7 @@ class C09(Prop):
                 spec = TIME_KINDS.get(kind)
                 if spec is None or spec[1] is None:
                     continue
-                want = now.strftime(spec[1])
+                want = expect_time(spec[1], now)
                 if val != want:
                     good = False
                     fail("clock", f"clock:{spec[0]}",
